@@ -139,8 +139,15 @@ class Flow:
         task = asyncio.ensure_future(coro_fn(cb))
         t_end = loop.time() + 10
         recv_task = None
+        gate = self.env["proxy"].gate
+        t_quiet = loop.time() + 0.04
         while not task.done():
             await asyncio.sleep(0.005)
+            if gate is not None and loop.time() > t_quiet and gate.pending():
+                # nothing has happened for 40 ms while cleanup delays of earlier connections are still running: the server
+                # may be waiting for one of them - it ends now
+                self.acc.count("cleanup_delays_released_because_the_client_waited", gate.release_all())
+                t_quiet = loop.time() + 0.04
             if recv_task is None and svc.websocket is not None:
                 for t in asyncio.all_tasks():
                     co = t.get_coro()
@@ -201,7 +208,7 @@ class Flow:
             return r
 
 
-async def run_flow(env, server, acc, scheme, cid, cfg, db_json, recreate_mask, restart_at, rng):
+async def run_flow(env, server, acc, scheme, cid, cfg, db_json, recreate_mask, restart_at, rng, force_late=None):
     short = gen.SHORT[scheme]
     flow = Flow(env, server, acc, scheme, cfg, db_json)
     case = {"scheme": scheme, "cfg_id": cid, "cfg": cfg, "db_json": db_json, "recreate_before_step": recreate_mask,
@@ -213,6 +220,14 @@ async def run_flow(env, server, acc, scheme, cid, cfg, db_json, recreate_mask, r
         acc.violation(f"e2e:{short}:{sig}", f"{scheme}: {msg} (client re-created before steps "
                                             f"{[STEPS[i + 1] for i, b in enumerate(recreate_mask) if b]}, server restart "
                                             f"{restart_at})", case)
+    late = (restart_at == "none" and rng.random() < 0.3) if force_late is None else force_late
+    gate = wh.Gate() if late else None
+    env["proxy"].gate = gate
+    if late:
+        # the server's one-second cleanup delays are held back: the delay of a closed connection is still running while the
+        # next steps are made, and ends either when the server turns out to wait for it or one step later
+        acc.count("workflows_with_cleanup_delays_outliving_the_next_step")
+        case["cleanup_delays"] = "held back (ended when the client waits, or one by one after later steps)"
     try:
         loop = asyncio.get_running_loop()
 
@@ -239,6 +254,11 @@ async def run_flow(env, server, acc, scheme, cid, cfg, db_json, recreate_mask, r
             if r[0] != "ok":
                 viol(f"step-failed:{name}:{r[0]}", f"workflow step {name} did not complete: {r[0]} {r[1]!r:.80}")
                 return
+            if gate is not None and gate.pending() and i >= 1:
+                # one delayed cleanup (the oldest) ends now, after a later step has been acknowledged
+                if gate.release_one():
+                    acc.count("cleanup_delays_ended_after_a_later_step")
+                    await wh.settle(20)
             if restart_at == "after-" + name:
                 await flow.drop()
                 await server.restart()
@@ -269,6 +289,10 @@ async def run_flow(env, server, acc, scheme, cid, cfg, db_json, recreate_mask, r
             if r[0] != "ok":
                 viol(f"no-result-delivered:{r[0]}", f"no result was delivered for {w!r}: {r[0]} {r[1]!r:.60}")
                 return
+            if gate is not None and gate.pending():
+                if gate.release_one():
+                    acc.count("cleanup_delays_ended_after_a_later_step")
+                    await wh.settle(20)
             want = flow.db.get(w, [])
             ok = (set(r[1]) == set(want) and len(r[1]) == len(set(want))) if scheme in gen.SET_RESULT else list(r[1]) == want
             acc.count("searches_compared")
@@ -277,11 +301,15 @@ async def run_flow(env, server, acc, scheme, cid, cfg, db_json, recreate_mask, r
                                      f"{[x.hex() for x in list(r[1])[:3]]}, the database holds {[x.hex() for x in want[:3]]} "
                                      f"({len(want)})")
                 return
-        acc.add("distinct", fp(scheme, cid, recreate_mask, restart_at, db_json))
+        acc.add("distinct", fp(scheme, cid, recreate_mask, restart_at, db_json, late))
         acc.add("placements", fp(recreate_mask, restart_at))
         acc.add("recreate_masks", "".join(str(int(b)) for b in recreate_mask))
     finally:
         await flow.drop()
+        if gate is not None:
+            env["proxy"].gate = None
+            gate.release_all()
+            await wh.settle(30)
 
 
 async def flows(spec, acc, ctx):
@@ -825,7 +853,8 @@ def replay(case, acc, ctx):
         server = await wh.Server().start()
         if "recreate_before_step" in case:
             await run_flow(env, server, acc, case["scheme"], case.get("cfg_id", "replay"), case["cfg"], case["db_json"],
-                           case["recreate_before_step"], case["server_restart"], ctx.rng)
+                           case["recreate_before_step"], case["server_restart"], ctx.rng,
+                           force_late=bool(case.get("cleanup_delays")))
         await server.stop()
     asyncio.run(go())
     acc.count("replayed")
@@ -847,6 +876,8 @@ def finish(m, tier, seed):
         inc.append(f"{c.get('timeouts')} waits ended without result or closure")
     if c.get("server_restarts", 0) < 9:
         inc.append("fewer than 9 server restarts exercised")
+    if c.get("workflows_with_cleanup_delays_outliving_the_next_step", 0) < 30:
+        inc.append("fewer than 30 workflows with cleanup delays that outlive the next step")
     if len(m["sets"].get("sibling_schemes", [])) < 9:
         inc.append("sibling services (two configurations of one scheme on one server) did not cover the nine schemes")
     if c.get("server_restarts_between_the_two_uploads", 0) < 9:
